@@ -32,9 +32,10 @@ func init() {
 			"Added after blind round 7: a table is sealed only where a new active table is installed afterwards (reviewed callers of SetImmutable; MemTable.Put drops writes into a sealed table silently); ErrWALClosed is answered only on status == WALStatusClosed (a rotating log must answer ErrWALRotating, the only error the storage layer retries). " +
 			"Added after blind round 8: the merging iterator's Next advances children with their own Next only (no Seek to a computed successor key). " +
 			"Added after blind round 9: Value() copies keep nil nil and empty empty (nil is the deletion marker below the merge); iterators below the merging layer position and step without looking at deletion markers. " +
-			"Added after blind round 10: the memtable's Put/Delete always insert; the storage mutators are called from the reviewed set of callers only (a decorator that splits a commit into several ApplyBatch calls is a new caller).",
+			"Added after blind round 10: the memtable's Put/Delete always insert; the storage mutators are called from the reviewed set of callers only (a decorator that splits a commit into several ApplyBatch calls is a new caller). " +
+			"Added after blind round 11: the module's []byte copy helpers keep an empty input empty and non-nil (nil is the deletion marker to every caller of Get).",
 		NotDecided: "atomicity across a crash (the log format has no batch frame: a torn batch cannot be recognised at replay — design remark, needs a crash to observe); concurrent-reader interleavings.",
-		Rules:      []func(*Ctx, *Reporter){ruleTxBufferIsolation, ruleTxApplyInside, ruleStSingleWriter, ruleStEffectOnce, ruleWalBatch, ruleTxBufferCapture, ruleTxRollbackClears, ruleTxOpsBuffered, ruleReuseValidatesTail, ruleWalFileWriters, ruleBufferViewsFollowMap, ruleBatchFrame, ruleAccessorsReturnCopies, ruleSealOnlyWhenReplaced, ruleClosedMeansClosed, ruleMergeNextStepsOnly, ruleValueWrappersKeepNil, ruleSourcesDoNotHideTombstones, ruleMemTablePutAlwaysInserts, subRules(ruleC16Who, "storage-mutator-callers")},
+		Rules:      []func(*Ctx, *Reporter){ruleTxBufferIsolation, ruleTxApplyInside, ruleStSingleWriter, ruleStEffectOnce, ruleWalBatch, ruleTxBufferCapture, ruleTxRollbackClears, ruleTxOpsBuffered, ruleReuseValidatesTail, ruleWalFileWriters, ruleBufferViewsFollowMap, ruleBatchFrame, ruleAccessorsReturnCopies, ruleSealOnlyWhenReplaced, ruleClosedMeansClosed, ruleMergeNextStepsOnly, ruleValueWrappersKeepNil, ruleSourcesDoNotHideTombstones, ruleMemTablePutAlwaysInserts, subRules(ruleC16Who, "storage-mutator-callers"), ruleCopyHelpersKeepEmptyNonNil},
 	})
 	register(&PropertyDef{
 		ID: "C06",
@@ -124,7 +125,7 @@ func init() {
 			"Added after blind round 10: every *.sst entry of the table directory is opened and appended at load, or the open fails (no other way to pass a file over than 'directory' or 'other extension'); the memtable's Put/Delete always insert unless the table is immutable. " +
 			"Added after blind round 11: between positioning the index cursor and positioning the data block iterator, every positioning method of sstable.Iterator loads the block the index points at.",
 		NotDecided: "that the bytes returned equal the bytes put for every program (values); block/index seek landing inside SSTables (value-level binary search — the pinned tree gets this wrong, declared under C11); effects of memtable-size configurations.",
-		Rules:      []func(*Ctx, *Reporter){ruleLayerOrder, ruleTombstoneShortCircuit, ruleMemComparator, ruleMemFind, ruleMemInsert, ruleFlushRules, ruleStStamps, ruleEmptyNotDeleted, ruleTombstoneMarker, ruleRecencyAtLoad, ruleTxOpsBuffered, ruleWalNoBufferDrop, ruleWalFragmentation, ruleSortKeysFromSortedSlice, ruleMemTableGetTable, ruleRecoveryLastTableMutable, ruleComparatorNoSubtraction, ruleFlushKeepsNewest, ruleDeltaBaseIsPredecessor, ruleRecoveryLimitsAreConfigured, ruleNoCapOnBlockSize, rulePoolWritesReachTable, ruleSelectionTakesOldest, ruleLoaderLoadsEveryTable, ruleMemTablePutAlwaysInserts, ruleTableIteratorLoadsWhatItIndexed},
+		Rules:      []func(*Ctx, *Reporter){ruleLayerOrder, ruleTombstoneShortCircuit, ruleMemComparator, ruleMemFind, ruleMemInsert, ruleFlushRules, ruleStStamps, ruleEmptyNotDeleted, ruleTombstoneMarker, ruleRecencyAtLoad, ruleTxOpsBuffered, ruleWalNoBufferDrop, ruleWalFragmentation, ruleSortKeysFromSortedSlice, ruleMemTableGetTable, ruleRecoveryLastTableMutable, ruleComparatorNoSubtraction, ruleFlushKeepsNewest, ruleDeltaBaseIsPredecessor, ruleRecoveryLimitsAreConfigured, ruleNoCapOnBlockSize, rulePoolWritesReachTable, ruleSelectionTakesOldest, ruleLoaderLoadsEveryTable, ruleMemTablePutAlwaysInserts, ruleTableIteratorLoadsWhatItIndexed, ruleCopyHelpersKeepEmptyNonNil},
 	})
 	register(&PropertyDef{
 		ID: "C05",
